@@ -20,6 +20,10 @@ TRUSTED = [
 ASSUMPTIONS = ["skeleton texts share no characters with delimiters and signs; tag interiors are single-line"]
 
 WS = ["", " ", "\t", "\n", " \n ", "\n\n", "  ", "\n  ", " \n", "\n\t\n", "\x0b", "\n "]
+# the other two line breaks (CRLF, lone CR), mixtures, halves of a CRLF that a tag can separate ("…\r" tag "\n…"), "\n\r"
+# (two line breaks), and form feed / vertical tab, which are whitespace but NOT line breaks
+WS_CR = ["\r\n", "\r", " \r\n ", "\r\n  ", "\r  ", " \r", "\n\r", "\r\n\r\n", "\r\n\t\r", "\x0c", "\x0c\n", "\n\x0b ", "\r\x0c"]
+WS_ALL = WS + WS_CR
 WORD = ["", "a", "foo", "é"]
 SIGNS = ["n", "m", "p"]
 
@@ -27,14 +31,16 @@ SIGNS = ["n", "m", "p"]
 def gen_seg(rng):
     k = rng.choice(["text", "text", "block", "block", "comment", "variable", "raw"])
     if k == "text":
-        return [Atom("text"), rng.choice(WS) + rng.choice(WORD) + rng.choice(WS)]
+        return [Atom("text"), rng.choice(WS_ALL) + rng.choice(WORD) + rng.choice(WS_ALL)]
     if k == "block":
         return [Atom("tag"), Atom("block"), Atom(rng.choice(SIGNS)), Atom(rng.choice(SIGNS)), "set z = 1"]
     if k == "comment":
-        return [Atom("tag"), Atom("comment"), Atom(rng.choice(SIGNS)), Atom(rng.choice(SIGNS)), rng.choice(["c", "c\nd", ""])]
+        return [Atom("tag"), Atom("comment"), Atom(rng.choice(SIGNS)), Atom(rng.choice(SIGNS)),
+                rng.choice(["c", "c\nd", "", "c\r\nd", "\r"])]
     if k == "variable":
         return [Atom("tag"), Atom("variable"), Atom(rng.choice(SIGNS)), Atom(rng.choice(["n", "m"])), "'V%d'" % rng.randrange(3)]
-    return [Atom("raw"), Atom(rng.choice(SIGNS)), rng.random() < 0.3, rng.choice(WS) + rng.choice(["", "r", "{{ x }}"]) + rng.choice(WS),
+    return [Atom("raw"), Atom(rng.choice(SIGNS)), rng.random() < 0.3,
+            rng.choice(WS_ALL) + rng.choice(["", "r", "{{ x }}"]) + rng.choice(WS_ALL),
             Atom(rng.choice(SIGNS)), Atom(rng.choice(SIGNS))]
 
 
@@ -52,14 +58,35 @@ def exhaustive_small():
                 yield [[Atom("text"), "a" + w1], [Atom("raw"), Atom(l1), m, w2 + "r" + w1, Atom(l2), Atom(r2)], [Atom("text"), w2 + "b"]]
 
 
+def exhaustive_cr():
+    """the same triples for every pair of whitespace runs in which at least one side has a CRLF / lone CR / form feed:
+    line breaks other than "\\n" before and after every kind of tag with every sign combination, and inside raw blocks"""
+    pairs = [(w1, w2) for w1 in WS_ALL for w2 in WS_ALL if w1 in WS_CR or w2 in WS_CR]
+    for kind in ("block", "comment", "variable"):
+        for l, r in itertools.product(SIGNS, SIGNS if kind != "variable" else ["n", "m"]):
+            for w1, w2 in pairs:
+                interior = {"block": "set z = 1", "comment": "c", "variable": "'V'"}[kind]
+                yield [[Atom("text"), "a" + w1], [Atom("tag"), Atom(kind), Atom(l), Atom(r), interior], [Atom("text"), w2 + "b"]]
+                yield [[Atom("text"), w1], [Atom("tag"), Atom(kind), Atom(l), Atom(r), interior], [Atom("text"), w2]]
+    crs = WS_CR[:7]
+    for l1, l2, r2 in itertools.product(SIGNS, SIGNS, SIGNS):
+        for m in (False, True):
+            for w1, w2 in itertools.product(crs, crs + ["", "\n"]):
+                yield [[Atom("text"), "a" + w1], [Atom("raw"), Atom(l1), m, w2 + "r" + w1, Atom(l2), Atom(r2)], [Atom("text"), w2 + "b"]]
+
+
 def run(ctx, res):
     from harness import envways as ew
     jinja2 = core.import_jinja()
     rng = ctx.rng("c12")
     way_counts = {}
     skeletons = list(exhaustive_small())
+    cr = list(exhaustive_cr())
     if ctx.quick:
         skeletons = skeletons[::3]
+        cr = cr[::5]
+    n_cr = len(cr)
+    skeletons += cr
     for _ in range(ctx.pick(4000, 40000)):
         skeletons.append([gen_seg(rng) for _ in range(rng.randrange(1, 7))])
     total, distinct, mism = 0, set(), 0
@@ -103,7 +130,10 @@ def run(ctx, res):
         "distinct_nontrivial": len(distinct) + ways["distinct_nontrivial"],
         "rule": ("skeletons of text (12 whitespace runs x words), block/comment/variable tags with every '-', '+', no-sign "
                  "combination on each side, and raw blocks (signs on all four sides): exhaustive text-tag-text triples "
-                 f"({'every third' if ctx.quick else 'all'}) plus random skeletons of 1-6 segments, under the four trim/lstrip settings x "
+                 f"({'every third' if ctx.quick else 'all'}), the same triples for every pair of runs involving one of {len(WS_CR)} "
+                 "runs with CRLF / lone CR / CR and LF on either side of the tag / LF CR / form feed / vertical tab "
+                 f"({n_cr} skeletons, {'every fifth' if ctx.quick else 'all'}; reference: line breaks normalised, FF/VT are not "
+                 "line breaks), plus random skeletons of 1-6 segments over all runs, under the four trim/lstrip settings x "
                  "default/ERB/PHP delimiters, each configuration reached in " + str(len(way_counts)) + " ways in rotation (fresh; "
                  "Template(...); overlay of a used parent overriding everything / only the whitespace options / one "
                  "whitespace option / only the delimiters; overlay chain used at each level; overlay of a fresh parent; sibling "
@@ -111,6 +141,7 @@ def run(ctx, res):
                  "environment histories: " + ways["rule"]),
         "samples": samples,
         "mismatches": mism,
+        "skeletons_with_cr_or_ff": sum(1 for d in distinct if "\r" in d[0] or "\x0c" in d[0]),
         "renders_by_way": way_counts,
         "environment_ways": ways,
     })
